@@ -196,6 +196,13 @@ def random_steps(rng, n):
                 a = 8 * rng.randint(1, n // 8)      # byte-aligned start: validity bitmaps are read per byte
             b = rng.randint(a, n)
             step = rng.choice([None, None, None, 2, -1])
+            if step is None and rng.random() < 0.25:
+                # counted from the end, open or over-long stop (what `tail`-like code and "whole array" tests see)
+                k = rng.randint(1, n)
+                stop = rng.choice([None, None, n + 3])
+                steps.append(['slice', -k, stop, None])
+                n = k
+                continue
             if step == -1:
                 steps.append(['slice', None, None, -1])
             else:
